@@ -16,8 +16,9 @@ import AmVerif.Model.Bloom
   invariant; validated by the differential run).  Errors of `load_incremental` (duplicate sequence
   numbers, corrupt chunks) cannot arise from changes made by honest peers and are not modelled.
 
-  Forced Bloom false positives (hook `sync::verif_hooks::FORCE_FP`, consulted at the top of
-  `contains_hash`) are the parameter `fp : Hash → Bool`.
+  Forced Bloom false positives (hook `sync::verif_hooks::FORCE_FP`, consulted in `contains_hash`
+  for filters that have entries and bits — an empty filter answers `false` before the hook) are the
+  parameter `fp : Hash → Bool`.
 -/
 namespace AmVerif.Sync
 open AmVerif
@@ -282,13 +283,16 @@ def mkBloom (hs : List Hash) : Bloom.Filter :=
   | .ok f => f
   | _ => Bloom.default
 
-/-- what the sender sees when it asks the filter: the hook first, then `contains_hash` (which
-    cannot fail, `C23_contains_total`) -/
+/-- what the sender sees when it asks the filter (`contains_hash`, which cannot fail:
+    `C23_contains_total`): a filter without entries or bits contains nothing — the hook is NOT
+    consulted (an empty filter has no false positives); otherwise the hook first, then the probes -/
 def bloomHas (fp : Hash → Bool) (f : Bloom.Filter) (h : Hash) : Bool :=
-  fp h ||
-  (match Bloom.containsHash f h with
-   | .ok b => b
-   | _ => false)
+  if f.numEntries = 0 ∨ f.bits.isEmpty then false
+  else
+    fp h ||
+    (match Bloom.containsHash f h with
+     | .ok b => b
+     | _ => false)
 
 /-- `Message::reset` -/
 def Message.reset (ourHeads : List Hash) : Message :=
